@@ -349,6 +349,8 @@ impl PossibleCycles {
 impl Drop for PossibleCycles {
     #[inline]
     fn drop(&mut self) {
+        #[cfg(feature = "verif-hooks")]
+        if !self.is_empty() { crate::verif::probe(27); }
         // Remove the remaining elements from the list
         while self.remove_first().is_some() {
             // remove_first already marks every removed element NonMarked
